@@ -150,3 +150,50 @@ func C02_Preimage() {
 	vAssert(vEqBytes(got, want), "preimage:bytes")
 	vCover("preimage-checked")
 }
+
+var _ = vReg("C02_RollbackRedo", C02_RollbackRedo)
+
+// C02_RollbackRedo: after rolling back to an earlier version and committing different writes, the
+// hashes of the redone versions (and of the version after them) are still the canonical ones,
+// whatever is left in the node cache from the abandoned versions.
+func C02_RollbackRedo() {
+	cfg, maxV, maxW := c04cfg("C02_RollbackRedo")
+	cfg.thresh = []int{0}
+	cfg.caches = []int{10000, 0}
+	cfg.fast = []bool{false, true}
+	cfg.auditOld = true
+	cfg.refHash = true
+	cfg.iso = true
+	h := vStartHist(cfg)
+	h.vBuildVersions(maxV, maxW)
+	if h.latest < 2 {
+		vStop()
+	}
+	// a read of the latest version (it pulls nodes of the soon-to-be-abandoned versions into the cache)
+	if vChoice("readbefore", 2) == 1 {
+		h.tree.GetWithIndex(h.p.keys[vChoice("rkey", h.p.n)])
+		h.tree.Iterate(func(k, v []byte) bool { return false })
+	}
+	target := h.first + int64(vChoice("target", int(h.latest-h.first)))
+	err := h.tree.LoadVersionForOverwriting(target)
+	vAssert(err == nil, "c02:loadversionforoverwriting-err")
+	for v := target + 1; v <= h.latest; v++ {
+		delete(h.vers, v)
+		delete(h.refRoots, v)
+		delete(h.refHash, v)
+	}
+	h.latest = target
+	h.resetWorkToLatest()
+	// redo: two more versions with one write each (doCommit compares working and commit hash with the reference)
+	for r := 0; r < 2; r++ {
+		c := vChoice("redo", 2*h.p.n)
+		if c < h.p.n {
+			h.doSet(c)
+		} else {
+			h.doRemove(c - h.p.n)
+		}
+		h.doCommit()
+	}
+	h.audit()
+	vCover("redone")
+}
